@@ -1,6 +1,7 @@
 SPECIFICATION Spec
 INVARIANT EachOccurrenceCounts
 INVARIANT VarIsOneSymbol
+INVARIANT NotYetAssigned
 INVARIANT DefinedIsAUse
 INVARIANT IndexDenotesNothing
 INVARIANT FreshRenameIsCaptureFree
